@@ -6,6 +6,8 @@ R=${TRY_REPO:-/repo}
 cd $R || exit 2
 git status --short | grep -q . && { echo "repo not clean"; exit 2; }
 git apply "$patch" || { echo "patch does not apply"; exit 2; }
-cd /verif && VERIF_EVIDENCE_DIR=/tmp/gosmt-evidence$TRY_TAG ./check "$id" --repo $R "$@" > /tmp/try_$id$TRY_TAG.log 2>&1; rc=$?
+# VERIF_ROOT: a private copy of /verif to run from (so that edits to /verif do not disturb a long sweep)
+V=${VERIF_ROOT:-/verif}
+cd $V && VERIF_EVIDENCE_DIR=/tmp/gosmt-evidence$TRY_TAG GOFLAGS=-mod=mod GOPROXY=off GOSUMDB=off GOTOOLCHAIN=local bin/gosmt check --verif $V --repo $R "$@" "$id" > /tmp/try_$id$TRY_TAG.log 2>&1; rc=$?
 git -C $R checkout -- . 
 echo "exit=$rc"; grep -E "^VIOLATION|counterexample|^KNOWN|^C[0-9]+ " /tmp/try_$id$TRY_TAG.log | cut -c1-300 | head -8
